@@ -681,8 +681,12 @@ func c15generate(r *rand.Rand, tier string, emit func(string)) {
 		emit(prefix)
 		getAll(7, 3)
 		emit("in " + in)
-		getAll(7, 3)
-		emit("in var 4 1 1|typ 0 3|varT 5 0 2")
+		if !strings.Contains(in, "bad scope") {
+			// (reading a name is an evaluation of its own and discards stale code: after a failing scoped
+			// statement the next declaration must follow IMMEDIATELY to see whether code was left behind)
+			getAll(7, 3)
+		}
+		emit("in var 4 0 1|typ 0 3|varT 5 0 2")
 		getAll(7, 3)
 	}
 	// (2) random histories: small name pools (frequent redefinition), inputs of 1-6 items, a failing item
@@ -735,6 +739,9 @@ func c15generate(r *rand.Rand, tier string, emit func(string)) {
 					continue
 				}
 				emit("in " + strings.Join(items, "|"))
+				if items[len(items)-1] == "bad scope" && r.Intn(2) == 0 {
+					continue // the next input follows immediately
+				}
 			}
 			getAll(names, tnames)
 		}
